@@ -1,3 +1,5 @@
+import importlib.util, os
+_pc = importlib.util.spec_from_file_location("pool_common", os.path.join(os.path.dirname(os.path.dirname(os.path.abspath(__file__))), "pool_common.py")); PC = importlib.util.module_from_spec(_pc); _pc.loader.exec_module(PC)
 MOD = "consensus::pool::slot_state::kani_c04"
 SS = "src/consensus/pool/slot_state.rs"
 SV = "src/consensus/pool/sorted_vec.rs"
@@ -25,6 +27,9 @@ POOL_REDIRECTS = [
     redirect(POOL, "use std::collections::BTreeMap;", "use crate::verif_coll::BTreeMap;"),
     dict(redirect(POOL, "use tokio::sync::mpsc::Sender;", "use crate::verif_coll::chan::Sender;"), required=True),
     {"file": "src/consensus.rs", "pattern": r"^            pool_tx,\n            repair_tx,$", "replacement": "            pool_tx.into(),\n            repair_tx.into(),", "count": 1, "required": True},
+    # std HashMap = SipHash with nondeterministic RandomState keys: the solver has to reason about the hash
+    # function (the pool-level query did not terminate in 15 min because of this one import)
+    dict(redirect("src/consensus/pool/parent_ready_tracker.rs", "use std::collections::HashMap;", "use crate::verif_coll::HashMap;"), required=True),
     redirect(FTR, "use std::collections::BTreeMap;", "use crate::verif_coll::BTreeMap;"),
     redirect(FTR, "use std::collections::btree_map::Entry;", "use crate::verif_coll::btree_map::Entry;"),
 ]
@@ -33,23 +38,21 @@ SPEC = {
     "property": "C04",
     "level_text": "Bounded symbolic verification of the real vote-admission filter: for every admissible set of votes the pool can already hold from a validator (notar A|B, notar-fallback for any subset of {A,B}, skip, skip-fallback, final) and every new vote of each of the five kinds, the solver shows that check_slashable_offence + should_ignore_vote report a slashable offence exactly for the conflicting pairs of the property statement (under an applicable name, for the right validator and slot, in either arrival order because the relation is checked for all held/new combinations), refuse exact and equivalent repeats as duplicates, and admit everything else - in particular every combination an honest validator can cast; votes of another validator never matter. A second family shows that an admitted vote is counted once, in exactly its class.",
     "level_note": "Bounds: 2 validators, 2 competing block hashes, one slot, one new vote against an arbitrary admissible held set (a one-step argument: the held set is exactly what earlier admitted votes can have stored). BLS signing is stubbed to an opaque token (signatures are validated before the pool, C09); std BTreeMap in slot_state.rs replaced by a bounded array map under Kani. The slot-window bounds of PoolImpl::add_vote (async, tokio channel) are outside. Trusts Kani, CBMC, CaDiCaL.",
-    "overlays": [COLL, FIX, AGG, CERT, VV, POOLFIX, {"src": "C04/kani_c04.rs", "dest": "src/consensus/pool/slot_state/kani_c04.rs", "decl_in": SS, "decl": "mod kani_c04;"},
-                 {"src": "C04/kani_c04_pool.rs", "dest": "src/consensus/pool/kani_c04_pool.rs", "decl_in": POOL, "decl": "mod kani_c04_pool;"}],
-    "redirects": SLOT_STATE_REDIRECTS + POOL_REDIRECTS,
+    # registered harnesses need the slot-state overlay only; the pool-level harnesses (kani_c04_pool.rs, not registered)
+    # are built with "overlays": PC.OVERLAYS + [...c04_pool...], "redirects": PC.REDIRECTS (harness/pool_common.py)
+    "overlays": [COLL, FIX, {"src": "C04/kani_c04.rs", "dest": "src/consensus/pool/slot_state/kani_c04.rs", "decl_in": SS, "decl": "mod kani_c04;"}],
+    "redirects": SLOT_STATE_REDIRECTS,
     "coll_cap": 3,
     "functions": ["consensus::pool::slot_state::SlotState::{new,check_slashable_offence,should_ignore_vote,add_vote,count_notar_stake,count_notar_fallback_stake,count_skip_stake,count_finalize_stake}"],
     "bounds": "2 validators (stakes 1 and 9), 2 block hashes, one slot; held votes of both validators symbolic; new vote kind fixed per harness, hash symbolic",
     "explanation": "One-step harnesses on the real SlotState: symbolic admissible held votes, one new vote, verdict compared with a reference relation written from the property statement; decided by Kani -> CBMC -> CaDiCaL.",
     "assumptions": ["held votes of a validator are pairwise non-conflicting and non-equivalent (what the filter itself admits; shown inductively by the same harnesses)", "BLS signing stubbed (opaque token)", "bounded array containers stand in for std BTreeMap, smallvec::SmallVec and pool::sorted_vec::{SortedVecMap,SortedVecSet} inside slot_state.rs under Kani (native replay uses the real ones)"],
     "trusted_base": ["reference relations conflicts()/repeats() in kani_c04.rs", "verif_coll stand-in", "kani_fix fixtures"],
-    "outside": ["PoolImpl::add_vote itself (order of the slashable check and the duplicate filter, slot-window bounds): the pool-level harnesses c04_pool_* exist but the final UNSAT query of the async PoolImpl harness did not finish in 15 min with CaDiCaL or kissat (measured) and they are not registered", "more than 2 competing blocks"],
+    "outside": ["PoolImpl::add_vote itself (order of the slashable check and the duplicate filter, slot-window bounds): the pool-level harnesses c04_pool_* exist but the final UNSAT query of the async PoolImpl harness are not registered: std HashMap in parent_ready_tracker.rs made the deciding query intractable (SipHash with nondeterministic keys; fixed by a redirect), after which symbolic execution of one PoolImpl::add_vote still exceeds 400 s (certificate / BitVec plumbing reachable from add_valid_cert)", "more than 2 competing blocks"],
     "harnesses": (
         [{"name": f"c04_admit_{k}", "path": MOD, "tiers": Q, "role": f"admission verdict/{k}", "stubs": ["crypto::aggsig::SecretKey::sign"], "covers": 3,
           "functions": ["SlotState::check_slashable_offence", "SlotState::should_ignore_vote"], "bounds": "held votes of 2 validators symbolic, new vote hash symbolic"} for k in KINDS]
         + [{"name": f"c04_count_{k}", "path": MOD, "tiers": [], "role": f"counted once/{k}", "stubs": ["crypto::aggsig::SecretKey::sign"], "covers": 1,
             "functions": ["SlotState::add_vote", "SlotState::count_*_stake", "SlotState::check_slashable_offence", "SlotState::should_ignore_vote"], "bounds": "fresh slot state, one vote with symbolic hash, stakes 1/9"} for k in KINDS]
-        + [{"name": f"c04_pool_{a}{b}", "path": PMOD, "tiers": [], "role": f"pool verdict/{KINDS[a]} then {KINDS[b]}", "stubs": ["crypto::aggsig::SecretKey::sign"], "covers": None,
-            "functions": ["PoolImpl::add_vote", "SlotState::check_slashable_offence", "SlotState::should_ignore_vote", "SlotState::add_vote"], "bounds": "fresh pool, validators with stakes 1/9, first vote for block A, second vote's block symbolic"} for a in range(5) for b in range(5)]
-        + [{"name": "c04_poolbounds", "path": PMOD, "tiers": [], "role": "slot window", "stubs": ["crypto::aggsig::SecretKey::sign"], "covers": 2, "functions": ["PoolImpl::add_vote"], "bounds": "fresh pool, slot any u64"}]
     ),
 }
